@@ -395,6 +395,8 @@ Definition call_cmd (now : Z) (d : db) (pcall : bool) (vals : list lval) : conv 
   | Some [] => fail                                           (* "No command specified" *)
   | Some (nm :: rest) =>
       if blocked (upper nm) then fail else
+      (* lazy expiry before the executor runs the command, as for a command sent directly *)
+      let d := fst (expire_before now d (upper nm) (map FBulk (nm :: rest))) in
       match exec_run now d (map FBulk (nm :: rest)) None with
       | (r, d') => (resp_to_lua pcall r, d')
       end
@@ -532,9 +534,8 @@ Definition h_eval (now : Z) (d : db) (parts : list frame) : frame * db :=
   | _ => (r_err, d)
   end.
 
-(** the database execute_database works on when the executor has no connection context
-    (the Lua path): conn_context.map(db_index).unwrap_or(0) *)
-Definition exec_database_db (script_db : Z) : Z := 0.
+(** the database execute_database works on: the script's own (after the repair e39f807) *)
+Definition exec_database_db (script_db : Z) : Z := script_db.
 
 (** dispatcher chained from Model/Server.v exec_db.  EVALSHA and SCRIPT need the script
     cache, which is runner state (Model/RunLua.v): reaching them here (inside EXEC) is outside
